@@ -8,6 +8,7 @@ import (
 	"fmt"
 	"io"
 	"math/rand"
+	"net"
 	"runtime/debug"
 	"strings"
 	"syscall"
@@ -185,7 +186,22 @@ var skipChunkShapes = []struct {
 	{"2byte+unexpectedeof", []int{2}, true, io.ErrUnexpectedEOF},
 	{"3byte+wrapped-protocol-exception", []int{3}, false, errWrappedPE},
 	{"5byte+typed-source-error", []int{5}, false, errTypedSrc},
+	{"4byte+error-wrapping-eof", []int{4}, false, errWrapsEOF},
+	{"6byte+operror-eof", []int{6}, true, errOpEOF},
+	{"7byte+error-that-is-eof", []int{7}, false, errIsEOF},
 }
+
+// source errors that are NOT io.EOF but answer errors.Is(err, io.EOF): what a connection reports when the peer goes away
+// in the middle of a frame.  They are the source's own errors like any other: the very value stays on the Unwrap chain
+var errWrapsEOF = fmt.Errorf("conn 10.0.0.7:8888: read frame: %w", io.EOF)
+var errOpEOF = &net.OpError{Op: "read", Net: "tcp", Err: io.EOF}
+
+type isEOFErr struct{ msg string }
+
+func (e *isEOFErr) Error() string        { return e.msg }
+func (e *isEOFErr) Is(target error) bool { return target == io.EOF }
+
+var errIsEOF = &isEOFErr{"stream reset by peer"}
 
 // a source error of a transport layer's own exception type: it exposes TypeId() like the library's exceptions and
 // unwraps to the real cause; the stream readers must wrap THIS value, not rebuild something that merely resembles it
@@ -244,6 +260,31 @@ func runSkippers(b []byte, t int8, full bool, shapes int) []skipRes {
 			r.Ok, r.N, r.Used, r.Tid = err == nil, n, n, tidOf(err)
 		})
 		out = append(out, r)
+	}
+	// ... and with the input in an array on the stack of a fresh goroutine (a caller decoding out of a local scratch
+	// buffer): deep values make the recursion grow that stack, which MOVES the input while it is being skipped
+	if len(b) <= len(stackArr{}) {
+		// where the grown stack lands relative to the old one depends on the allocator's state: a few goroutines parked
+		// on stacks of various sizes vary it (both directions matter: one makes a stale end address reject everything,
+		// the other makes it accept anything)
+		parkedSets := []int{0}
+		if len(b) >= 90 {
+			parkedSets = []int{0, 2, 2, 3, 2}
+		}
+		for rep, parked := range parkedSets {
+			ready, gate := make(chan int, parked), make(chan int)
+			for k := 0; k < parked; k++ {
+				go burnPark(5+(k*13+rep*7+len(b))%60, ready, gate)
+			}
+			for k := 0; k < parked; k++ {
+				<-ready
+			}
+			ch := make(chan skipRes, 1)
+			go func() { ch <- skipOnStack(b, t) }()
+			r := <-ch
+			close(gate)
+			out = append(out, r)
+		}
 	}
 	// 4. BytesSkipDecoder
 	{
@@ -399,6 +440,43 @@ func runSkippers(b []byte, t int8, full bool, shapes int) []skipRes {
 		out = append(out, r)
 	}
 	return out
+}
+
+type stackArr [1536]byte
+
+// skipOnStack copies the input into a local array (it does not escape: thrift.Binary.Skip does not retain its argument)
+// and skips it there.  Must run on a fresh goroutine so that the stack is small when the recursion starts.
+//
+//go:noinline
+func skipOnStack(b []byte, t int8) (r skipRes) {
+	r = skipRes{Impl: "binary", Shape: "stack-array-fresh-goroutine", Ret: true}
+	defer func() {
+		if p := recover(); p != nil {
+			r.Ok, r.Panic = false, true
+		}
+	}()
+	var arr stackArr
+	n := copy(arr[:], b)
+	for i := n; i < len(arr); i++ {
+		arr[i] = 0
+	}
+	k, err := thrift.Binary.Skip(arr[:n], t)
+	r.Ok, r.N, r.Used, r.Tid = err == nil, k, k, tidOf(err)
+	return r
+}
+
+// burnPark recurses d levels (growing its goroutine's stack accordingly), reports and parks until the gate opens
+//
+//go:noinline
+func burnPark(d int, ready chan<- int, gate <-chan int) int {
+	var pad [256]byte
+	pad[d%256] = byte(d)
+	if d == 0 {
+		ready <- 1
+		<-gate
+		return int(pad[0])
+	}
+	return burnPark(d-1, ready, gate) + int(pad[d%256])
 }
 
 // connSource: an io.Reader with the extra methods of a connection / buffered stream
